@@ -162,10 +162,15 @@ def _run_path(contract, case, schedule, lengths, budget, want_canaries=False):
     return rec
 
 
-def explore(contract, case, lengths=None, budget=20000, want_canaries=False):
+def explore(contract, case, lengths=None, budget=20000, want_canaries=False, deadline=None):
     todo = [[]]
     paths = []
     while todo:
+        if deadline is not None and time.time() > deadline:
+            # a check must terminate on ANY tree: past the case's wall-clock budget the remaining paths are reported undecided
+            paths.append({"outcome": "time-limit", "obligations": [], "schedule": [], "lib": [], "solver_s": 0, "decisions": [],
+                          "reason": "case budget exhausted with %d path(s) still to explore" % len(todo)})
+            break
         if len(paths) >= contract.max_paths:
             paths.append({"outcome": "path-limit", "obligations": [], "schedule": [], "lib": [], "solver_s": 0, "decisions": []})
             break
@@ -186,7 +191,8 @@ def check_case(contract, case, tier="quick"):
     budget = 20000 if tier == "quick" else 120000
     N = 3 if tier == "quick" else 5
     t0 = time.time()
-    paths = explore(contract, case, None, budget)
+    deadline = t0 + (600 if tier == "quick" else 3600)
+    paths = explore(contract, case, None, budget, deadline=deadline)
     summary = {"contract": contract.name, "target": contract.target, "case": case["name"], "paths": [],
                "obligations": [], "generation_errors": [], "lib": set(), "solver_s": 0.0}
     failed = []
@@ -195,7 +201,7 @@ def check_case(contract, case, tier="quick"):
         summary.setdefault("bounded_clauses", set()).update(p.get("bounded_skipped", []))
         summary["solver_s"] += p.get("solver_s", 0)
         pr = {"outcome": p["outcome"], "schedule": p.get("schedule"), "n_obligations": len(p["obligations"])}
-        if p["outcome"] in ("out-of-subset", "needs-contract", "path-limit", "engine-crash"):
+        if p["outcome"] in ("out-of-subset", "needs-contract", "path-limit", "engine-crash", "time-limit"):
             summary["generation_errors"].append({"outcome": p["outcome"], "reason": p.get("reason"), "trace": p.get("trace")})
         if p.get("feasible") == "unsat":
             # the cheap feasibility check let an infeasible branch through and the contradiction surfaced at exit: the path
@@ -233,7 +239,10 @@ def check_case(contract, case, tier="quick"):
     combos = combos[:max_combos]
     for combo in combos:
         lengths = dict(zip(names, combo))
-        bpaths = explore(contract, case, lengths, 10000, want_canaries=True)
+        if time.time() > deadline + 300 and bounded_runs >= 1:
+            truncated = True
+            break
+        bpaths = explore(contract, case, lengths, 10000, want_canaries=True, deadline=deadline + 300)
         bounded_runs += 1
         for p in bpaths:
             if p.get("feasible") == "sat":
